@@ -46,7 +46,7 @@ ElemNodes(x) == CASE x.e = "text" -> <<T(TX[x.i])>>
 \* -------------------------------------------------------------------- skel
 Bit(b, i) == (b \div (2^(i - 1))) % 2 = 1
 Tx(x, i) == T(TX[((x.tx + i) % Len(TX)) + 1])
-NBits(k) == CASE k = 1 -> 8 [] k = 2 -> 6 [] k = 3 -> 6 [] k = 4 -> 2 [] k = 5 -> 2 [] k = 6 -> 4 [] k = 7 -> 6 [] k = 8 -> 6 [] k = 9 -> 6
+NBits(k) == CASE k = 1 -> 8 [] k = 2 -> 6 [] k = 3 -> 6 [] k = 4 -> 2 [] k = 5 -> 2 [] k = 6 -> 4 [] k = 7 -> 6 [] k = 8 -> 6 [] k = 9 -> 6 [] k = 10 -> 6
 SkelNodes(x) ==
   LET b(i) == Bit(x.bits, i) IN
   CASE x.k = 1 ->      \* T {% if true %} T {{ v3 }} T {% else %} T {% endif %} T
@@ -77,9 +77,14 @@ SkelNodes(x) ==
          <<Tx(x, 0)>> \o W(b(1), Assign, b(2)) \o <<Tx(x, 1)>> \o W(b(3), Ob(Var(VN(2))), b(4))
          \o <<Tx(x, 2)>> \o W(b(5), Assign, b(6)) \o <<Tx(x, 3)>>
 
+    [] x.k = 10 ->     \* T {{ v3 }} T {% assign %} T {{ v3 }} T {{ v1 }} : a value ending in white space, then (blank) text, then a
+                       \* hyphenated tag - the hyphen takes the text next to it, never the end of the value
+         <<Tx(x, 0)>> \o W(b(1), Ob(Var(VN(3))), FALSE) \o <<Tx(x, 1)>> \o W(b(2), Assign, b(3)) \o <<Tx(x, 2)>>
+         \o W(b(4), Ob(Var(VN(3))), FALSE) \o <<Tx(x, 3)>> \o W(b(5), Ob(Var(VN(1))), b(6)) \o <<Tx(x, 4)>>
+
 Skels == UNION {[g : {"skel"}, k : {k}, tx : 0..(Len(TX) - 1),
                  bits : IF Bits THEN 0..(2^NBits(k) - 1) ELSE {0, 2^NBits(k) - 1} \cup {2^i : i \in 0..(NBits(k) - 1)}
-                                                               \cup {2^NBits(k) - 1 - 2^i : i \in 0..(NBits(k) - 1)}] : k \in 1..9}
+                                                               \cup {2^NBits(k) - 1 - 2^i : i \in 0..(NBits(k) - 1)}] : k \in 1..10}
 Cases == [g : {"flat"}, s : UNION {FlatSeqs(n) : n \in 0..N}] \cup Skels
 
 ProgOf(x) == IF x.g = "flat" THEN Flatten([i \in 1..Len(x.s) |-> ElemNodes(x.s[i])]) ELSE SkelNodes(x)
